@@ -3,7 +3,7 @@ from rules import r_hist, r_lock, r_errdrop, r_coord, r_keyid, r_opcode, r_doact
 
 PROPS = {
     "C01": {
-        "rules": [r_coord.run, r_doaction.rule_state_push, r_cancel.run, r_cancel.rule_owed, r_chv2.rule_rel, r_evict.run, r_countdown.run, r_tickorder.rule_wait_gate, r_cancel.rule_retain_all, r_tickorder.rule_queue_trans, r_custom.run, r_scratch.run, r_macro.rule_evicted_release, r_nametable.run, r_custom.rule_fold_acc, r_idle.run_only("Kanata", "Layout", "OneShotState", "ChordsV2", "ActiveChord", "WaitingState", "SequenceState", "OverrideStates", "ScrollState", "MoveMouseState", "MoveMouseAccelState", "CapsWordState", "DynamicMacroReplayState")],
+        "rules": [r_coord.run, r_doaction.rule_state_push, r_cancel.run, r_cancel.rule_owed, r_chv2.rule_rel, r_evict.run, r_countdown.run, r_tickorder.rule_wait_gate, r_cancel.rule_retain_all, r_tickorder.rule_queue_trans, r_custom.run, r_scratch.run, r_macro.rule_evicted_release, r_nametable.run, r_custom.rule_fold_acc, r_idle.run_only("Kanata", "Layout", "OneShotState", "ChordsV2", "ActiveChord", "WaitingState", "SequenceState", "OverrideStates", "ScrollState", "MoveMouseState", "MoveMouseAccelState", "CapsWordState", "DynamicMacroReplayState"), r_tickorder.rule_overflow_all, r_tickorder.rule_stack_dedup],
         "explanation": "Decides structural clauses of 'no stuck output': (R-COORD) every State variant created at a "
                        "coordinate is removable by Release at that coordinate and the three coordinate predicates agree; "
                        "(R-STATE-PUSH) arms of do_action that create coordinate-keyed state do so on every path and the custom "
@@ -11,7 +11,7 @@ PROPS = {
         "not_decided": "bounded-time liveness over all histories; diff logic prev_keys/cur_keys; timeout arithmetic",
     },
     "C02": {
-        "rules": [r_panic.run_rt, r_prodcons.run, r_rec.run_rt, r_coordspace.run, r_lock.run, r_opcode.run_all, r_loopvar.run_rt, r_tickorder.rule_rpt_order, r_tickorder.rule_rpt_queue, r_tickorder.rule_queue_trans, r_srckeys.run, r_depth.run],
+        "rules": [r_panic.run_rt, r_prodcons.run, r_rec.run_rt, r_coordspace.run, r_lock.run, r_opcode.run_all, r_loopvar.run_rt, r_tickorder.rule_rpt_order, r_tickorder.rule_rpt_queue, r_tickorder.rule_queue_trans, r_srckeys.run, r_depth.run, r_tickorder.rule_stack_dedup],
         "explanation": "Decides: (R-PANIC/rt) every panic-capable site (bounds check, slice/Vec index, unsigned subtraction, narrow "
                        "addition/multiplication, negation, division, shift, unwrap/expect, assert!/unreachable!/panic!) in the "
                        "functions reachable from the event/tick entry points is either discharged by the guard data-flow (constant "
@@ -54,7 +54,7 @@ PROPS = {
                        "char-boundary safety of span slicing beyond the reviewed lexer invariant",
     },
     "C04": {
-        "rules": [r_coord.run, r_doaction.rule_state_push, r_layers.rule_fill, r_layers.rule_press_dedup, r_doaction.rule_state_clear, r_buildall.run_for("C04"), r_pipeline.run_cfg_mirror, r_cancel.rule_retain_all, r_pipeline.run_layer_lists, r_nametable.run_consts],
+        "rules": [r_coord.run, r_doaction.rule_state_push, r_layers.rule_fill, r_layers.rule_press_dedup, r_doaction.rule_state_clear, r_buildall.run_for("C04"), r_pipeline.run_cfg_mirror, r_cancel.rule_retain_all, r_pipeline.run_layer_lists, r_nametable.run_consts, r_tickorder.rule_stack_dedup],
         "explanation": "Narrow: (R-FILL) the default fill of unassigned layer positions is decided from block-unmapped-keys and the "
                        "key only, never from the layer index, and position 0 is forced to NoOp; decides the release half of layered remapping — every state a press creates is keyed on the "
                        "coordinate (never the layer) and removed by Release at that coordinate (R-COORD); the key / layer / custom "
@@ -63,7 +63,7 @@ PROPS = {
                        "millisecond — functions of run-time values",
     },
     "C05": {
-        "rules": [r_wait.run_all, r_evict.run_c05, r_tickorder.rule_wait_gate, r_tickorder.rule_tick_together, r_wait.rule_lookahead, r_traverse.run_rebuild, r_wait.rule_slot_index, r_countdown.rule_nowrap, r_idle.run_only("WaitingState", "TapDanceEagerState", "LastPressTracker")],
+        "rules": [r_wait.run_all, r_evict.run_c05, r_tickorder.rule_wait_gate, r_tickorder.rule_tick_together, r_wait.rule_lookahead, r_traverse.run_rebuild, r_wait.rule_slot_index, r_countdown.rule_nowrap, r_idle.run_only("WaitingState", "TapDanceEagerState", "LastPressTracker"), r_wait.rule_scan_order, r_tickorder.rule_overflow_all],
         "explanation": "Decides: (R-WAIT) each waiting_into_hold/tap/timeout clears its slot on every path before do_action (a "
                        "decision is consumed once) and performs an action whose provenance is exactly the hold / tap / "
                        "timeout_action field; Layout::tick and process_extra_waitings dispatch the four WaitingAction variants to "
